@@ -50,34 +50,52 @@ def _comp_txt(c, alias_names):
     return s + ";"
 
 
+def _class_lines(c, indent):
+    alias_names = {a["name"] for a in c["alias"]}
+    short = c["name"][len(c["pkg"]) + 1:] if c.get("pkg") else c["name"]
+    out = ["%s %s" % (c["kind"], short)]
+    for a in c["alias"]:
+        out.append("  type %s = Real(%s = %s);" % (a["name"], a["attr"], a["val"]))
+    for r in c.get("repl", []):
+        out.append("  replaceable model %s = %s;" % (r["name"], r["def"]))
+    for e in c["ext"]:
+        s = "  extends %s" % (e.get("txt") or e["base"])
+        if e["mods"]:
+            s += "(" + ", ".join(_mod_txt(m) for m in e["mods"]) + ")"
+        out.append(s + ";")
+    for comp in c["comps"]:
+        out.append("  " + _comp_txt(dict(comp, type=comp.get("txt") or comp["type"]), alias_names))
+    eqs = list(c["eqs"]) + ["%s = %s.%s" % (r["var"], r["cls"], r["sym"]) for r in c.get("crefs", [])]
+    if eqs:
+        out.append("equation")
+        for q in eqs:
+            out.append("  %s;" % q)
+    if c.get("algs"):
+        out.append("algorithm")
+        for q in c["algs"]:
+            out.append("  %s;" % q)
+    out.append("end %s;" % short)
+    return [indent + l for l in out]
+
+
 def render_flatten_lib(lib):
     """lib: the JSON object of a  LIB  line of ClassTreeFlatten.tla  ->  Modelica text"""
     out = []
+    pkgs = {p["name"]: p for p in lib.get("pkgs", [])}
+    done = set()
     for c in lib["classes"]:
-        alias_names = {a["name"] for a in c["alias"]}
-        out.append("%s %s" % (c["kind"], c["name"]))
-        for a in c["alias"]:
-            out.append("  type %s = Real(%s = %s);" % (a["name"], a["attr"], a["val"]))
-        for r in c.get("repl", []):
-            out.append("  replaceable model %s = %s;" % (r["name"], r["def"]))
-        for e in c["ext"]:
-            s = "  extends %s" % e["base"]
-            if e["mods"]:
-                s += "(" + ", ".join(_mod_txt(m) for m in e["mods"]) + ")"
-            out.append(s + ";")
-        for comp in c["comps"]:
-            out.append("  " + _comp_txt(comp, alias_names))
-        eqs = list(c["eqs"]) + ["%s = %s.%s" % (r["var"], r["cls"], r["sym"]) for r in c.get("crefs", [])]
-        if eqs:
-            out.append("equation")
-            for q in eqs:
-                out.append("  %s;" % q)
-        if c.get("algs"):
-            out.append("algorithm")
-            for q in c["algs"]:
-                out.append("  %s;" % q)
-        out.append("end %s;" % c["name"])
-        out.append("")
+        pk = c.get("pkg") or ""
+        if not pk:
+            out += _class_lines(c, "") + [""]
+        elif pk not in done:
+            done.add(pk)
+            out.append("package %s" % pk)
+            for imp in pkgs[pk]["imports"]:
+                out.append("  import %s;" % imp)
+            for d in lib["classes"]:
+                if (d.get("pkg") or "") == pk:
+                    out += _class_lines(d, "  ")
+            out += ["end %s;" % pk, ""]
     return "\n".join(out)
 
 
